@@ -885,6 +885,10 @@ func (l zzC08Layout) addr(a zzC08Addr) (ip netip.Addr) {
 	default:
 		var b [16]byte
 		b[0] = 0xfd
+		if a.Fam == "z6" {
+			// Link-local, with a zone (see below).
+			b[0], b[1] = 0xfe, 0x80
+		}
 		// hi sits in bytes 4..5 (bits 80..95 from the right).
 		b[4] = byte(hi >> 8)
 		b[5] = byte(hi)
@@ -900,6 +904,9 @@ func (l zzC08Layout) addr(a zzC08Addr) (ip netip.Addr) {
 		}
 
 		ip = netip.AddrFrom16(b)
+		if a.Fam == "z6" {
+			ip = ip.WithZone(zzC08Zone)
+		}
 	}
 
 	return ip
@@ -1029,6 +1036,9 @@ func zzC08Rules(ps []zzC08Pat) (rules []string) {
 
 	return rules
 }
+
+// zzC08Zone is the zone of the link-local ("z6") addresses.
+const zzC08Zone = "eth0"
 
 const zzC08MAC = "02:c0:8c:08:c0:08"
 
@@ -1228,6 +1238,12 @@ type zzC08Bad struct {
 	Seen    uint64 `json:"seen,omitempty"`
 	Max     uint64 `json:"max,omitempty"`
 	NA      uint64 `json:"nA,omitempty"`
+	// NC is the number of queries in the counter's group that must not be
+	// counted for no other reason than their client being marked.
+	NC uint64 `json:"nC,omitempty"`
+	// ClientFam is the address family the primary client is identified by
+	// ("" unless it is identified by an address).
+	ClientFam string `json:"clientFam,omitempty"`
 	Detail  string `json:"detail,omitempty"`
 	Client  string `json:"client,omitempty"`
 	Anon    bool   `json:"anon"`
@@ -1313,9 +1329,10 @@ func zzC08RunScript(u *zzC08Univ, sc *zzC08Script, seed int64, work string) (res
 		case sc.K[zzC08KOfRound(r)].Anon:
 			b := make([]int, len(snd.Addr.Bits))
 			copy(b, snd.Addr.Bits[:u.Width-u.LowBits])
-			q.stKey = lay.addr(zzC08Addr{Fam: snd.Addr.Fam, Bits: b}).Unmap().String()
+			q.stKey = lay.addr(zzC08Addr{Fam: snd.Addr.Fam, Bits: b}).Unmap().WithZone("").String()
 		default:
-			q.stKey = ip.Unmap().String()
+			// Neither the log nor the statistics get the zone of an address.
+			q.stKey = ip.Unmap().WithZone("").String()
 		}
 
 		return q
@@ -1385,9 +1402,13 @@ func zzC08RunScript(u *zzC08Univ, sc *zzC08Script, seed int64, work string) (res
 	}
 	defer e.stop()
 
-	ckind := sc.K[0].Client.Kind
+	ckind, cfam := sc.K[0].Client.Kind, ""
+	if sc.K[0].Client.Addr != nil {
+		cfam = sc.K[0].Client.Addr.Fam
+	}
+
 	addBad := func(b zzC08Bad, anon bool) {
-		b.Anon, b.Client = anon, ckind
+		b.Anon, b.Client, b.ClientFam = anon, ckind, cfam
 		res.bad = append(res.bad, b)
 	}
 
@@ -1460,7 +1481,7 @@ func zzC08RunScript(u *zzC08Univ, sc *zzC08Script, seed int64, work string) (res
 	// the key some countable query is filed under (which is the anonymised
 	// address for queries recorded while anonymisation is on).
 	checkStats := func(obs string, st *zzC08Stats, scope []*zzC08Q, mins bool, ips []netip.Addr) {
-		type rng struct{ min, max, nA uint64 }
+		type rng struct{ min, max, nA, nC uint64 }
 		names, keys, tot := map[string]*rng{}, map[string]*rng{}, &rng{}
 		get := func(m map[string]*rng, k string) (r *rng) {
 			if r = m[k]; r == nil {
@@ -1484,6 +1505,9 @@ func zzC08RunScript(u *zzC08Univ, sc *zzC08Script, seed int64, work string) (res
 					r.max++
 				case zzC08AOnly(v):
 					r.nA++
+					r.nC++
+				case v == "no:R:C":
+					r.nC++
 				}
 			}
 		}
@@ -1496,7 +1520,7 @@ func zzC08RunScript(u *zzC08Univ, sc *zzC08Script, seed int64, work string) (res
 
 			switch {
 			case seen > r.max:
-				addBad(zzC08Bad{Obs: obs, Kind: "count-exceeded", Group: group, Seen: seen, Max: r.max, NA: r.nA}, anyAnon)
+				addBad(zzC08Bad{Obs: obs, Kind: "count-exceeded", Group: group, Seen: seen, Max: r.max, NA: r.nA, NC: r.nC}, anyAnon)
 			case mins && seen < r.min:
 				res.lost = append(res.lost, fmt.Sprintf("%s %s %d<%d", obs, group, seen, r.min))
 			case r.max == 0:
@@ -1555,12 +1579,12 @@ func zzC08RunScript(u *zzC08Univ, sc *zzC08Script, seed int64, work string) (res
 			res.checked++
 			checkKeyAnon("topips", k)
 			if r := keys[k]; r == nil || r.max == 0 {
-				nA := uint64(0)
+				nA, nC := uint64(0), uint64(0)
 				if r != nil {
-					nA = r.nA
+					nA, nC = r.nA, r.nC
 				}
 
-				addBad(zzC08Bad{Obs: obs, Kind: "count-exceeded", Store: "topips", Group: "key:" + k, Seen: 1, Max: 0, NA: nA}, anyAnon)
+				addBad(zzC08Bad{Obs: obs, Kind: "count-exceeded", Store: "topips", Group: "key:" + k, Seen: 1, Max: 0, NA: nA, NC: nC}, anyAnon)
 			}
 		}
 	}
